@@ -41,6 +41,7 @@ def run(repo, run, tier):
     dim_rule(repo, run, "C14.1", ["brentsroot", "brentsrootvec"], floor=12)
     safeguard(repo, run)
     caps(repo, run)
+    endpoints(repo, run)
 
 
 def _scalar_tree(fn):
@@ -196,3 +197,116 @@ def caps(repo, run):
         run.judged(rid, "%s: counters %s, capped=%s" % (q, sorted(incs), capped), ok=capped)
         if not capped:
             run.report("C14.4", OPT, loop, "%s: the iteration is not bounded by a counter compared with a constant cap" % q, text="%s iteration cap" % q)
+
+
+# ------------------------------------------------------------------------------------------------
+def _sign_product_eval(atom, s):
+    """evaluate a comparison atom about fa*fb under sign(fa*fb) = s in {-1, 0, 1}; None if the atom is about something else"""
+    base = atom.split("@")[0]
+    parts = base.split(" ")
+    if len(parts) != 3:
+        return None
+    l, op, r = parts
+    import operator
+    f = {"Lt": operator.lt, "LtE": operator.le, "Eq": operator.eq, "NotEq": operator.ne}.get(op)
+
+    def val(x):
+        if x in ("fa*fb", "fb*fa"):
+            return s
+        try:
+            return float(x)
+        except ValueError:
+            return None
+    a, b = val(l), val(r)
+    if f is None or a is None or b is None:
+        return None
+    return f(a, b)
+
+
+def endpoints(repo, run):
+    import itertools
+    rid = run.rule("C14.5", "bracket admission over the sign of f(a)*f(b) in {-, 0, +}: the scalar solver gives up (no success) exactly when the product is strictly "
+                            "positive (a root at an end point is kept); the value it returns as success is `product <= 0`; the vector solver's success covers an "
+                            "exact zero at the end point", floor=3)
+    fn = repo.get(OPT, "brentsroot")
+    # early rejection: the first `if` before the main loop whose body returns (..., False)
+    rej = None
+    pre = []
+    for st in fn.body:
+        if isinstance(st, ast.While):
+            break
+        pre.append(st)
+        if isinstance(st, ast.If) and any(isinstance(x, ast.Return) and isinstance(x.value, ast.Tuple) and isinstance(x.value.elts[-1], ast.Constant) and x.value.elts[-1].value is False
+                                         for x in st.body) and ("fa" in src(st.test) or any(isinstance(n, ast.Name) for n in ast.walk(st.test))):
+            names = {n.id for n in ast.walk(st.test) if isinstance(n, ast.Name)}
+            if names & {"fa", "fb"} or names & {s2.targets[0].id for s2 in pre if isinstance(s2, ast.Assign) and isinstance(s2.targets[0], ast.Name) and "fa" in src(s2.value)}:
+                rej = st
+    if rej is None:
+        run.judged(rid, "scalar bracket rejection present", ok=False)
+        run.report("C14.5", OPT, fn, "brentsroot has no early rejection of brackets without a sign change", text="missing bracket rejection")
+    else:
+        bt = BoolTracker()
+        bt.run([s2 for s2 in pre if s2 is not rej])
+        tree = bt.tree(rej.test)
+        atoms = tree_atoms(tree)
+        verdict = {}
+        okk = True
+        for sgn in (-1, 0, 1):
+            asg = {}
+            for a in atoms:
+                v = _sign_product_eval(a, sgn)
+                if v is None:
+                    okk = False
+                asg[a] = v
+            if not okk:
+                break
+            verdict[sgn] = eval_bool(tree, asg)
+        ok = okk and verdict == {-1: False, 0: False, 1: True}
+        run.judged(rid, "scalar rejection `%s` over sign(fa*fb): %s" % (src(rej.test), verdict), ok=ok)
+        if not okk:
+            run.report("C14.5", OPT, rej, "the bracket rejection is not a test on the sign of f(a)*f(b) (it compares with something that depends on the scale of f)")
+        elif not ok:
+            run.report("C14.5", OPT, rej, "the scalar solver %s: brackets are rejected for sign(f(a)f(b)) in %s, it must be exactly {+}" % (
+                "gives up when the function is exactly zero at an end point of the bracket (returns inf, no success, and disagrees with the vector solver)" if verdict.get(0) else
+                "accepts brackets without a sign change", sorted(k for k, v in verdict.items() if v)))
+    # returned success
+    rets = [st for st in fn.body if isinstance(st, ast.If) and "return_interval" in src(st.test)]
+    succ = []
+    for st in ast.walk(fn):
+        if isinstance(st, ast.Return) and isinstance(st.value, ast.Tuple) and len(st.value.elts) >= 2 and not (isinstance(st.value.elts[1], ast.Constant)):
+            succ.append(st.value.elts[1])
+    for e in succ:
+        tree = BoolTracker().tree(e)
+        atoms = tree_atoms(tree)
+        verdict = {}
+        okk = True
+        for sgn in (-1, 0, 1):
+            asg = {a: _sign_product_eval(a, sgn) for a in atoms}
+            if any(v is None for v in asg.values()):
+                okk = False
+                break
+            verdict[sgn] = eval_bool(tree, asg)
+        ok = okk and verdict == {-1: True, 0: True, 1: False}
+        run.judged(rid, "scalar success `%s` over sign(fa*fb): %s" % (src(e), verdict), ok=ok)
+        if not ok:
+            run.report("C14.5", OPT, e, "the success value of brentsroot is not `f(a)*f(b) <= 0` of the final bracket (sign change kept, or an exact zero at its end)")
+    # vector: true_conv must be implied by fb == 0 and by the initial sign change
+    vfn = repo.get(OPT, "brentsrootvec")
+    tcs = [st for st in ast.walk(vfn) if isinstance(st, ast.Assign) and src(st.targets[0]) == "true_conv"]
+    if not tcs:
+        raise AnalysisError("brentsrootvec: true_conv not found")
+    for st in tcs:
+        bt = BoolTracker()
+        bt.run([s2 for s2 in vfn.body if isinstance(s2, ast.Assign) and src(s2.targets[0]) == "bracketed"])
+        tree = bt.tree(st.value)
+        atoms = tree_atoms(tree)
+        zero_atoms = [a for a in atoms if a.split("@")[0] in ("0 Eq fb", "fb Eq 0")]
+        ok = bool(zero_atoms)
+        if ok:
+            for vals in itertools.product((False, True), repeat=len(atoms)):
+                asg = dict(zip(atoms, vals))
+                if asg[zero_atoms[0]] and not eval_bool(tree, asg):
+                    ok = False
+        run.judged(rid, "vector success `%s` is implied by an exact zero at b" % src(st.value), ok=ok)
+        if not ok:
+            run.report("C14.5", OPT, st, "the vector solver's success mask is not implied by an exact zero at the end point b: a root at an end of the bracket is not certified")
